@@ -92,7 +92,7 @@ def monC04q (c : MonCtx) : Mon C04qSt where
        | none => some st
        | some k =>
          (match k with
-          | .send m | .trySend m =>
+          | .send m | .trySend m | .tryForce m =>
             if r == .ok && !st.stopIssued then some { st with sentOk := m :: st.sentOk } else some st
           | .call m | .callw m | .tryCall m =>
             -- a message submitted after an accepted stop request returned: its call returns an error
